@@ -389,10 +389,12 @@ fn delayed_gap_fires(filled: bool) {
     // part of the gap may have arrived in the meantime: (a,c) strictly inside (0,off), not touching either end
     let (a, c): (u64, u64) = (kani::any(), kani::any());
     kani::assume(0 < a && a < c && c < off);
-    if filled {
-        p.saved_segments.merge((a, c));
-    }
-    p.saved_segments.merge((off, off + 1));
+    // the list is built directly (hook): symbolic merges are C09's subject and cost minutes each
+    p.saved_segments = if filled {
+        cfdp_daemon::verif::Segments::verif_from(vec![(a, c), (off, off + 1)])
+    } else {
+        cfdp_daemon::verif::Segments::verif_from(vec![(off, off + 1)])
+    };
     p.received_file_size = 1 + if filled { c - a } else { 0 };
     p.delayed_nack_timers = vec![(counter(2, 1, NOW, 0, false, false), 0, off)];
     // the queue gets its buffer up front (rule 8: the pushes below depend on the symbolic number of gaps)
